@@ -205,6 +205,7 @@ func tagOf(bs []byte) int {
 
 func (f *fake) Write(bs []byte) error {
 	tag := tagOf(bs)
+	f.d.log("UWEnter", "inc", f.inc, "tag", tag) // the write loop has taken this request from its queue
 	if f.isClosed() {
 		f.d.log("UWrite", "inc", f.inc, "tag", tag, "ok", false, "auto", true, "pos", 0)
 		return errFakeClosed
